@@ -5,7 +5,7 @@
   `checkpoint_on_close`, `open` = replay_committed + scan_recovery_state + replay_label_transactions
   + IdMap::load + replay_graph_transactions with the `txid ≤ checkpoint_txid` skip).
 -/
-import Nervus.Proofs.EngineReplay2
+import Nervus.Proofs.ReopenHist
 import Nervus.Proofs.EngineCompact
 import Nervus.Model.Triggers
 namespace Nervus.Props.C04
@@ -31,6 +31,28 @@ def C04_full : Prop :=
     (∃ s', s.reopen = .ok s' ∧ SameContent s s') ∧
     (∃ s', s.checkpointOnClose.reopen = .ok s' ∧ SameContent s s')
 
+/-- **C04 (proved part, history level): `reopen_preserves` for compaction-free histories.**
+    For EVERY well-formed history of committed and abandoned transactions and ANY number of reopens
+    (drop without close, then open) in between, that triggers no known finding (external id 0 is the
+    only one that concerns reopen), every `open` succeeds, and the reads after the last reopen AND the
+    reads before it both agree with the Spec graph — hence with each other: the same nodes keep their
+    ids, labels (all of them) and properties, the same relationships their types, end nodes,
+    multiplicity and properties.  By induction over histories with the recovery invariant `Rec`
+    (what `open` computes from the log) next to the refinement invariant `Sim`. -/
+theorem C04_partial (h : List Op) (hops : txOrReopen h = true) (hwf : GraphSpec.wellFormed h = true)
+    (hk : GraphSpec.noC06Trigger h = true) (hsz : histSize h ≤ labelMax) :
+    ∃ s s', Storage.run Cfg.current h = .ok s ∧ s.reopen = .ok s' ∧
+      ReadsAgree Cfg.current s (GraphSpec.run h) ∧ ReadsAgree Cfg.current s' (GraphSpec.run h) := by
+  simp only [GraphSpec.noC06Trigger, Bool.and_eq_true, Bool.not_eq_true'] at hk
+  obtain ⟨⟨⟨k1, k2⟩, k3⟩, k4⟩ := hk
+  obtain ⟨s, hrun, hsim, hrec⟩ := run_sim2 h {} {} Sim.empty Rec.empty hops hwf (by simpa using hsz) k1 k2 k3 k4
+  obtain ⟨s', hopen, hsim', _⟩ := reopen_sim hsim hrec
+  exact ⟨s, s', hrun, hopen, hsim.reads _, hsim'.reads _⟩
+
+/-- one reopen step, state level: from any engine state that satisfies the two invariants -/
+theorem reopen_preserves_invariants {s : Engine} {g : GraphSpec.Graph} (hS : Sim s g) (hR : Rec s) :
+    ∃ s', s.reopen = .ok s' ∧ Sim s' g ∧ Rec s' := reopen_sim hS hR
+
 /-- **C04 (proved part): recover ∘ log = id for one transaction.**  For EVERY write transaction
     (any staged writes, from any engine state) the records `commit` appends to the log, replayed by
     `replay_graph_transactions` through a fresh memtable, give a run that no read can tell from the run
@@ -51,6 +73,17 @@ theorem runs_read_congruence {rs rs' : List Run} (h : RunsEq rs rs') :
    fun e k => RunEq.epropRuns h e k⟩
 
 /-! ### non-vacuity: delete + re-create of a parallel relationship with properties in one transaction -/
+
+def hReopens : List Op :=
+  [ .tx [.node 10 (some 321), .node 11 none, .edge 0 338 1, .edge 0 338 1, .labelAdd 0 322, .nprop 0 363 7] true,
+    .reopen,
+    .tx [.tombEdge 0 338 1, .edge 0 338 1, .eprop 0 338 1 363 5, .labelDel 0 321, .labelAdd 1 321] true,
+    .tx [.node 12 (some 322)] false,
+    .reopen, .reopen,
+    .tx [.epropDel 0 338 1 363, .tombEdge 0 338 1, .tombNode 1, .npropDel 0 363] true ]
+
+example : txOrReopen hReopens = true ∧ GraphSpec.wellFormed hReopens = true ∧
+    GraphSpec.noC06Trigger hReopens = true ∧ histSize hReopens ≤ labelMax := by decide
 
 def A : Nat := 321
 def B : Nat := 322
